@@ -3,9 +3,9 @@
 # patch (default features; all features if async code is touched), demo fails with / passes without.
 # usage: seedverify.sh <ID> <N>     writes /tmp/seedverify/<ID>-<N>.json
 ID="$1"; N="$2"
-OUT=/tmp/seed/$ID/out
+OUT=/tmp/seed/$ID/${SEED_OUT:-out}
 WT=/tmp/seedverify/wt
-RES=/tmp/seedverify/$ID-$N.json
+RES=/tmp/seedverify/$ID-${SEED_OUT:-out}-$N.json
 mkdir -p /tmp/seedverify
 if [ ! -d "$WT" ]; then git -C /repo worktree add -q --detach "$WT" HEAD || exit 2; fi
 cd "$WT" && git checkout -q --detach "$(git -C /repo rev-parse HEAD)" && git checkout -- . && rm -rf tests
